@@ -251,6 +251,31 @@ def run_grid(ctx):
             if prob:
                 ctx.fail('spec', 'grid', {**case, 'outcome': outcome}, f'{name}{tuple(args)}: {prob}', f'grid:{name}')
                 continue
+            # the object stays in use after the call, whatever its outcome (in particular after a rejected request): degenerate
+            # requests made next must again either raise or store finite points
+            if obj is not None and hasattr(obj, 'sin_bend') and obj._x.size and rng.random() < 0.35:
+                follow = rng.sample([('sin_bend(0.0)', lambda w: w.sin_bend(0.0)), ('linear(speed=0)', lambda w: w.linear([1.0, 0.0, 0.0], speed=0.0)),
+                                     ('linear([1e39,0,0])', lambda w: w.linear([1e39, 0.0, 0.0])), ('arc_bend(0.0)', lambda w: w.arc_bend(0.0)),
+                                     ('linear(speed=nan)', lambda w: w.linear([1.0, 0.0, 0.0], speed=float('nan'))),
+                                     ('linear([0.5,0,0])', lambda w: w.linear([0.5, 0.0, 0.0]))], rng.randint(1, 3))
+                done = []
+                for label, f2 in follow:
+                    old2 = signal.signal(signal.SIGALRM, _alarm)
+                    signal.setitimer(signal.ITIMER_REAL, 0.5)
+                    try:
+                        with core.quiet():
+                            f2(obj)
+                        done.append(label + ':ok')
+                    except Exception as e:  # noqa
+                        done.append(label + ':' + type(e).__name__)
+                    finally:
+                        signal.setitimer(signal.ITIMER_REAL, 0)
+                        signal.signal(signal.SIGALRM, old2)
+                ctx.count('grid.followup', 'after-' + ('ok' if outcome == 'ok' else 'raise'))
+                prob = check_obj(obj)
+                if prob:
+                    ctx.fail('spec', 'grid', {**case, 'outcome': outcome, 'then': done}, f'{name}{tuple(args)} ({outcome}), then {done}: {prob}', f'grid-followup:{name}')
+                    continue
             # compile what was built (also after a raise: the points stored so far are the user's path)
             if obj is not None and obj._x.size and rng.random() < 0.3:
                 cfg = {'filename': 'p.pgm', 'shift_origin': rng.choice([(0.0, 0.0), (1e38, -3e38), (0.5, 0.25)]), 'flip_x': rng.random() < 0.5,
